@@ -87,7 +87,7 @@ TORCH_TO_UNIT = {
     "F.cross_entropy": "cross_entropy",
 }
 HAS_CONSTRAINT = {"linear", "gelu", "silu", "softmax", "matmul", "conv1d"}
-ATTENTION_KEYS = ("softmax", "sdpa", "usdpa")
+ATTENTION_KEYS = ("softmax", "sdpa", "usdpa", "gate_softmax")
 
 
 class UnitScaleSemantics(Semantics):
@@ -100,10 +100,23 @@ class UnitScaleSemantics(Semantics):
     def call(self, key: str, args: Tuple[Any, ...], kwargs: Dict[str, Any], ctx: Dict[str, Any]) -> Any:
         import unit_scaling.functional as U
 
-        if key in self.replace:
-            self.plan.append(f"custom:{key}")
-            return self.replace[key](*args, **kwargs)
         unconstrained = ctx.get("after_last_residual", False)
+        if key == "custom_gelu" and key not in self.replace:
+            key = "F.gelu"  # a user function that is not replaced is traced into: it is just F.gelu
+        if key in self.replace:
+            import inspect
+
+            fn = self.replace[key]
+            kw = dict(kwargs)
+            if unconstrained and "constraint" in inspect.signature(fn).parameters:
+                kw["constraint"] = None
+            self.plan.append(f"custom:{key}")
+            return fn(*args, **kw)
+        if key == "gate_softmax":
+            (h,) = args
+            kw = {"constraint": None} if unconstrained else {}
+            self.plan.append("U.softmax(gate)")
+            return h * U.softmax(h, dim=-1, **kw)
         if key in TORCH_TO_UNIT:
             name = TORCH_TO_UNIT[key]
             fn = getattr(U, name)
